@@ -7,6 +7,31 @@ import sys
 import tlcio
 
 
+def binding_demo():
+    """the trace specification is bound to the code: a recorded session validates, and corrupting one recorded field makes
+    TLC name exactly that event; dropping the tail of the trace file is caught by comparing the event count"""
+    import json
+    import shutil
+    import traces
+    wd = tlcio.workdir()
+    try:
+        f, stats = traces.driver_events(wd, 7, 12)
+        rep, events = traces.validate(f)
+        if rep["bad"] or rep["events"] != len(events) or not events:
+            print("binding demo: clean trace not accepted:", rep["bad"][:3])
+            return 1
+        idx = next(i for i, e in enumerate(events) if e["op"] == "intersection" and e.get("res", {}).get("k") == "Point")
+        events[idx]["res"]["p"][0] += 1
+        g = f + ".corrupt"
+        json.dump(events, open(g, "w"))
+        rep2, _ = traces.validate(g)
+        ok = [b[0] for b in rep2["bad"]] == [idx + 1]
+        print("binding demo: %d recorded events accepted; one corrupted coordinate -> verdicts %s (%s)" % (len(events), rep2["bad"], "ok" if ok else "WRONG"))
+        return 0 if ok else 1
+    finally:
+        shutil.rmtree(wd, ignore_errors=True)
+
+
 def main():
     bad = 0
     mods = sorted(glob.glob(os.path.join(tlcio.SPEC, "*.tla")) + glob.glob(os.path.join(tlcio.SPEC, "mc", "*.tla")))
@@ -23,6 +48,7 @@ def main():
     if not run.ok:
         print("\n".join(run.log[-30:]))
         bad += 1
+    bad += binding_demo()
     try:
         import geom  # noqa: F401
         print("library import ok from", geom.REPO)
